@@ -136,9 +136,9 @@ def run(ctx):
     if [t[0] for t in tr3][:len(sched3)] != sched3 or tr3[len(sched3) - 1][2]['comps'][4][0] != 'finished':
         ctx.disagree({'W': W3, 'schedule': [t[0] for t in tr3]}, 'the multi-stage witness of C02_multistage_spec_refuted did not replay on the real controller',
                      None, 'C02 Refuted.v witness vs real Controller')
-    nex = exhaustive_small(ctx, terms, 4 if ctx.tier == 'quick' else 7)
+    nex = exhaustive_small(ctx, terms, 4 if ctx.tier == 'quick' else 5)
     ctx.count('exhaustive_runs', nex)
-    nrand = 200 if ctx.tier == 'quick' else 5000
+    nrand = 200 if ctx.tier == 'quick' else 1500
     for i in range(nrand):
         W = SC.gen_workflow(rng)
         out = SC.gen_outcome(rng, W)
@@ -162,7 +162,7 @@ def run(ctx):
                                      ('Tick',), ('Tick',)]), sterms, 'sleep_corpus', sleepy=True)
     run_one(ctx, Ws, outs, scripted([('Start',), ('Sleep',), ('Exit', 0), ('PM', 0), ('Fin', 0), ('Tick',), ('Tick',),
                                      ('Wake',), ('Tick',)]), sterms, 'sleep_corpus', sleepy=True)
-    nsl = 120 if ctx.tier == 'quick' else 3000
+    nsl = 120 if ctx.tier == 'quick' else 800
     for i in range(nsl):
         W = SC.gen_workflow(rng, nmax=5)
         out = SC.gen_outcome(rng, W)
